@@ -1,5 +1,5 @@
 """C19 — Configuration front-ends build the documented pipeline, end to end."""
-import gzip, itertools, json, os, pty, re, select, shutil, subprocess, tempfile, time, tty
+import calendar, gzip, itertools, json, os, pty, re, select, shutil, subprocess, tempfile, time, tty
 from concurrent.futures import ThreadPoolExecutor
 import vlib
 
@@ -7,15 +7,20 @@ META = {
     'id': 'C19',
     'level': 'proof',
     'technique': 'Coq proof (shape of the built handler lists + pipeline-evaluation lemma, scanner specification of '
-                 'the SGR stripper, invariant over install/restore/foreign histories) + source-to-Coq translation '
+                 'the SGR stripper, invariant over install/restore/foreign histories of several Logger objects that are created and '
+                 'destroyed, which-file-holds-which-line invariants of the startup/daily rotation options) + source-to-Coq translation '
                  'of configure.cpp/logger.cpp + differential run of the extracted model against one child process '
                  'per generated configuration and against the real qInstallMessageHandler state',
     'text': 'Theorems (Properties_C19.v) state, for ALL settings objects / one-line arguments over the modelled value '
             'menus and ALL message streams, that the handler list configure() builds (as translated from the source on '
             'every run) delivers every passing message exactly once to each configured output, formatted by the '
             'selected formatter, and to no other; that with the one-line configuration the file text is the console '
-            'text minus its SGR sequences; what exactly the stripper removes; and, for ALL histories of install / '
-            'restore / foreign calls, which handler a restore leaves.  The extracted model and the boolean oracles are '
+            'text minus its SGR sequences; what exactly the stripper removes; for ALL histories of install / '
+            'restore / foreign calls by ANY number of Logger objects (the singleton and stack / scoped / heap loggers that are '
+            'created and destroyed on the way), which handler a restore leaves and who receives the messages afterwards - also after '
+            'the installing logger is gone; and, for every old content of the log file (lines last written on an earlier day) and every '
+            'stream, which FILE holds which line under the startup / daily / count options of both front-ends (old lines of another day are '
+            'moved to <base>.<that day>.<index>.<suffix>, no file mixes days, nothing is lost).  The extracted model and the boolean oracles are '
             'run against child processes that log through Qt\'s macros (stdout, stderr, log directory captured) and '
             'against the real handler state.',
     'note': 'Trusted: Coq 8.16.1 kernel (vm_compute only for the closed source-configuration checks and examples), no '
@@ -29,9 +34,11 @@ META = {
             'decided by few-line matchers of this model; the general languages belong to C12/C15/C16.  Modelled not '
             'verified: QSettings INI lexing and QVariant conversions (values are written quoted; boolean spellings are '
             'converted by the generator using Qt\'s rule), QDateTime rendering (time text passed in, virtual clock), '
-            'isatty (pipes and ptys both exercised), the locale codec (QTextCodec: a share of the children select ISO-8859-1 with QTextCodec::setCodecForLocale; expected bytes are the UTF-16 text of the model mapped per code unit, above U+00FF to a question mark, and console and file are compared as bytes), rotation/retention/compression of the file sink (C05-C08: the '
+            'isatty (pipes and ptys both exercised), the qInstallMessageHandler of Qt itself and default handler (the install harness sees the default handler print on fd 2), the locale codec (QTextCodec: a share of the children select ISO-8859-1 with QTextCodec::setCodecForLocale; expected bytes are the UTF-16 text of the model mapped per code unit, above U+00FF to a question mark, and console and file are compared as bytes), rotation BY SIZE, retention and compression of the file sink (C05-C08: the '
             'check concatenates the rotated files, gunzips, and accepts a record-aligned suffix when retention '
-            'trimmed), asynchronous hand-off (C03/C04: async runs drain through exec()+quit or resetOwnThread with a '
+            'trimmed; the file-layout model / oracle cover startup and daily rotation of a synchronous stream and are consulted only where the size limit '
+            'and the retention limit cannot trigger and the old lines are not dated after the first message; the mtime of the old file is set with utime, '
+            'the date in a rotated name is mapped to a day number by this script), asynchronous hand-off (C03/C04: async runs drain through exec()+quit or resetOwnThread with a '
             'live QCoreApplication), syslog (the sink is configured but cannot be captured offline: only its presence '
             'in the handler list and the other outputs being unaffected are observed), embedded NUL characters '
             '(console sinks print C strings), qFatal (aborts the process; belongs to C11).  On this platform the platform log '
@@ -166,8 +173,8 @@ def gen_ini_case(rng, i, subset=None):
     c['end'] = rng.choice(['exec', 'reset'])
     c['tty'] = rng.choice([(0, 0), (0, 0), (1, 1), (1, 0), (0, 1)])
     c['codec'] = rng.choice(['utf8', 'utf8', 'utf8', 'latin1'])
-    c['pre'] = rng.choice(['', '', 'OLD RECORD\n'])
     c['msgs'] = gen_msgs(rng, rng.randint(1, 10), esc=rng.random() < 0.15, same_day=bool(c['b']['async']))
+    gen_pre(rng, c)
     if c['rx'] and rng.random() < 0.6:
         # aim the literal at one of the messages so that the filter passes some and rejects others
         safe = [m['text'] for m in c['msgs'] if re.fullmatch(r'[A-Za-z0-9 ]+', m['text'])]
@@ -192,15 +199,66 @@ def gen_oneline_case(rng, i):
     c['end'] = rng.choice(['exec', 'reset'])
     c['tty'] = rng.choice([(0, 0), (0, 0), (0, 1), (1, 1)])
     c['codec'] = rng.choice(['utf8', 'utf8', 'latin1'])
-    c['pre'] = rng.choice(['', '', 'OLD RECORD\n'])
     c['msgs'] = gen_msgs(rng, rng.randint(1, 14), esc=rng.random() < 0.6, same_day=c['async'])
+    gen_pre(rng, c)
+    return c
+
+
+PRE_DEFAULT_MTIME = 1600000000          # older than every virtual message date
+
+
+def gen_pre(rng, c):
+    """what the log file holds when the process starts and when it was last written: nothing / lines of a
+    much earlier day / of the day before the first message / of the same day as the first message"""
+    c['pre'] = rng.choice(['', '', 'OLD RECORD\n', 'OLD 1\nOLD 2\n'])
+    t0 = c['msgs'][0]['time']
+    day0 = (t0 // 86400) * 86400
+    c['pre_mtime'] = rng.choice([PRE_DEFAULT_MTIME, PRE_DEFAULT_MTIME, day0 - 1, day0 - 86400 * rng.choice([1, 2, 31, 366]) + rng.randrange(86400),
+                                 day0 + rng.randrange(0, t0 - day0 + 1)])
+
+
+def gen_daily_case(rng, i, front):
+    """daily rotation asked for, old lines in the file, messages today (and on the following days when the
+    configuration is synchronous): which FILE holds which line.  Sizes / counts are chosen so that neither
+    rotation by size nor the retention limit can interfere (both belong to C05-C09)."""
+    if front == 'oneline':
+        c = {'front': 'oneline', 'id': i, 'path': True, 'size': rng.choice([0, 0, -5, 1048576]), 'count': rng.choice([0, 0, 5, 100, 1]),
+             'opts': rng.choice([2, 2, 2, 6, 3, 7]), 'async': rng.random() < 0.3, 'end': rng.choice(['exec', 'reset']),
+             'tty': (0, 0), 'codec': 'utf8'}
+        asyn = c['async']
+    else:
+        sub = {'path', 'rotate_daily'} | {k for k in ('rotate_on_startup', 'max_file_size', 'max_file_count', 'compress_old_files', 'message_pattern',
+                                                       'platform_std_log', 'async') if rng.random() < 0.4}
+        c = gen_ini_case(rng, i, subset=sub)
+        c['path'] = True
+        c['b']['rotate_daily'] = True; c['spell']['rotate_daily'] = rng.choice(TRUE_SP)
+        if c['size'] is not None:
+            c['size'] = rng.choice([0, -1, 1048576])
+        if c['count'] is not None:
+            c['count'] = rng.choice([0, 100, 100, 1, -1])
+        c['tty'] = (0, 0)
+        asyn = bool(c['b']['async'])
+    t = 1700000000 + rng.randrange(0, 10 ** 7)
+    ms = []
+    for _ in range(rng.randint(1, 6)):
+        ms.append({'t': rng.choice(TYPES), 'w': 0, 'cat': rng.choice(['default', 'app', 'net']), 'text': rng.choice(['hello', 'keep me', 'Alpha 1', 'z', 'a b c']), 'time': t})
+        t += rng.choice([0, 1, 3600, 86400, 86400]) if not asyn and len({m['time'] // 86400 for m in ms}) < 3 else rng.choice([0, 1])
+    if asyn:
+        d = (ms[0]['time'] // 86400) * 86400
+        for k, m in enumerate(ms):
+            m['time'] = d + 100 + k
+    c['msgs'] = ms
+    day0 = (ms[0]['time'] // 86400) * 86400
+    c['pre'] = rng.choice(['OLD RECORD\n', 'OLD 1\nOLD 2\n', 'OLD RECORD\n', ''])
+    c['pre_mtime'] = rng.choice([day0 - 1, day0 - 86400 * rng.choice([1, 2, 31, 366]) + rng.randrange(86400), day0 - 86400 * rng.randint(1, 5),
+                                 PRE_DEFAULT_MTIME, day0 + rng.randrange(0, ms[0]['time'] - day0 + 1)])
     return c
 
 
 def msg_tokens(ms):
     out = ['M%d' % len(ms)]
     for m in ms:
-        out += [m['t'], hx16(m['cat']), hx16(m['text']), str(m['w']), hx16(timestr(m['time']))]
+        out += [m['t'], hx16(m['cat']), hx16(m['text']), str(m['w']), hx16(timestr(m['time'])), str(m['time'] // 86400)]
     return out
 
 
@@ -317,7 +375,8 @@ ROT = re.compile(r'^app\.(\d{4}-\d{2}-\d{2})\.(\d+)\.log(\.gz)?$')
 
 
 def collect_files(logdir):
-    """records of the log directory in rotation order: rotated files by (date, index), then the active file"""
+    """records of the log directory in rotation order: rotated files by (date, index), then the active file;
+    also file by file: [(date, index, bytes)] and the bytes of the active file"""
     names = sorted(os.listdir(logdir)) if os.path.isdir(logdir) else []
     rot, other, active = [], [], None
     for n in names:
@@ -329,7 +388,8 @@ def collect_files(logdir):
         else:
             other.append(n)
     data = b''
-    for _, n in sorted(rot):
+    per = []
+    for (date, idx), n in sorted(rot):
         b = open(os.path.join(logdir, n), 'rb').read()
         if n.endswith('.gz'):
             try:
@@ -337,9 +397,12 @@ def collect_files(logdir):
             except Exception:
                 b = b'<<bad gzip>>'
         data += b
+        per.append((date, idx, b))
+    act = b''
     if active:
-        data += open(os.path.join(logdir, active), 'rb').read()
-    return data, len(rot), other, names
+        act = open(os.path.join(logdir, active), 'rb').read()
+        data += act
+    return data, len(rot), other, names, per, act
 
 
 def run_case(impl, c, texts, work):
@@ -350,7 +413,8 @@ def run_case(impl, c, texts, work):
     if c['pre'] and c['path']:
         with open(logpath, 'w') as f:
             f.write(c['pre'])
-        os.utime(logpath, (1600000000, 1600000000))   # older than every virtual message date
+        mt = c.get('pre_mtime', PRE_DEFAULT_MTIME)
+        os.utime(logpath, (mt, mt))
     shape = os.path.join(d, 'shape.txt')
     s = ['shape ' + shape]
     if c.get('codec', 'utf8') == 'latin1':
@@ -368,13 +432,14 @@ def run_case(impl, c, texts, work):
     with open(script, 'w') as f:
         f.write('\n'.join(s) + '\n')
     rc, out, err = spawn([impl, 'run', script], c['tty'][0], c['tty'][1])
-    data, nrot, other, names = collect_files(logdir)
+    data, nrot, other, names, per, act = collect_files(logdir)
     try:
         sh = open(shape).read().split()
     except FileNotFoundError:
         sh = ['?', '?']
     shutil.rmtree(d, ignore_errors=True)
     return {'rc': rc, 'out': out, 'err': err, 'file': data, 'nrot': nrot, 'other': other, 'names': names,
+            'per_file': per, 'active': act,
             'shape': sh[0] if sh else '?', 'async': sh[1] if len(sh) > 1 else '?'}
 
 
@@ -399,6 +464,80 @@ def file_view(c, obs, expected):
     return (data[len(pre):] if data.startswith(pre) else data), False
 
 
+# ------------------------------------------------------------------------------------ which file holds which record
+def day_of_date(s):
+    y, m, d = (int(x) for x in s.split('-'))
+    return calendar.timegm((y, m, d, 0, 0, 0)) // 86400
+
+
+def eff_size(c):
+    if c['front'] == 'ini':
+        return 1048576 if c['size'] is None else c['size']
+    return c['size']
+
+
+def is_async(c):
+    return bool(c['b']['async']) if c['front'] == 'ini' else bool(c['async'])
+
+
+def pre_of(c):
+    """(number of old lines, day they were last written) of the file found at start"""
+    if not (c['pre'] and c['path']):
+        return 0, 0
+    return c['pre'].count('\n'), c.get('pre_mtime', PRE_DEFAULT_MTIME) // 86400
+
+
+def layout_applicable(c, rec_bytes, model_layout):
+    """the layout model covers startup / daily rotation of a synchronous stream; the check asks it only where
+    rotation by size and the retention limit cannot interfere and where name order = creation order"""
+    if not c['path']:
+        return False
+    days = [m['time'] // 86400 for m in c['msgs']]
+    if days != sorted(days):
+        return False
+    npre, d0 = pre_of(c)
+    if npre and d0 > days[0]:
+        return False
+    if is_async(c) and len(set(days)) > 1:
+        return False
+    sz = eff_size(c)
+    if sz > 0 and sz < len(c['pre']) + sum(len(r) for r in rec_bytes) + 64:
+        return False
+    n = eff_count(c)
+    nrot = 0 if model_layout.split()[0] == '-' else model_layout.split()[0].count(',') + 1
+    if n >= 2 and nrot > n - 1:
+        return False
+    return True
+
+
+def observed_layout(c, o, rec_bytes):
+    """'<day>:<index>:<records>,... <records of the active file>' of the log directory, or None when a file does not
+    hold whole records of the expected stream (then the stream oracle / file_view has already objected)"""
+    recs = [l + b'\n' for l in c['pre'].encode().split(b'\n')[:-1]] if (c['pre'] and c['path']) else []
+    recs += rec_bytes
+    k, out = 0, []
+    for date, idx, b in list(o['per_file']) + [(None, None, o['active'])]:
+        n, got = 0, b''
+        while len(got) < len(b) and k < len(recs):
+            got += recs[k]; k += 1; n += 1
+        if got != b:
+            return None
+        out.append((date, idx, n))
+    if k != len(recs):
+        return None
+    rot = ','.join('%d:%d:%d' % (day_of_date(d), i, n) for d, i, n in out[:-1]) or '-'
+    return '%s %d' % (rot, out[-1][2])
+
+
+def show_layout(txt):
+    if txt is None:
+        return None
+    rot, act = txt.split()
+    fs = [] if rot == '-' else [f.split(':') for f in rot.split(',')]
+    return {'rotated_files': ['app.%s.%s.log[.gz]: %s record(s)' % (time.strftime('%Y-%m-%d', time.gmtime(int(d) * 86400)), i, n) for d, i, n in fs],
+            'app.log': '%s record(s)' % act}
+
+
 # ------------------------------------------------------------------------------------ the check
 def compare_front(chk, front, cases, model, impl, work, stats):
     """returns list of failing cases (oracle falsified) and list of model/impl disagreements"""
@@ -411,7 +550,7 @@ def compare_front(chk, front, cases, model, impl, work, stats):
     _, mo, _ = vlib.run_lines(model, lines, ['ini' if front == 'ini' else 'oneline'])
     with ThreadPoolExecutor(max_workers=min(12, vlib.NCPU)) as ex:
         obs = list(ex.map(lambda ct: run_case(impl, ct[0], ct[1], work), zip(cases, texts)))
-    orc_in, views = [], []
+    orc_in, views, olines = [], [], []
     for c, line, m, o in zip(cases, lines, mo, obs):
         f = m.split()
         cd = c.get('codec', 'utf8')
@@ -427,14 +566,32 @@ def compare_front(chk, front, cases, model, impl, work, stats):
         else:
             # console bytes and file bytes compared as bytes (decoded unit per byte under Latin-1)
             orc_in.append('%s %s' % (of_bytes(o['err'], cd), of_bytes(fv, cd)) if c['path'] else '- -')
+        olines.append(line)
     _, verdict, _ = vlib.run_lines(model, orc_in, ['inioracle' if front == 'ini' else 'oloracle'])
+    # which FILE holds which record (startup / daily options): model of the sink, observed directory, oracle
+    lmode = 'ini' if front == 'ini' else 'ol'
+    pres = [pre_of(c) for c in cases]
+    _, mlay, _ = vlib.run_lines(model, ['%s | %d %d' % (line, np, d0) for line, (np, d0) in zip(olines, pres)], [lmode + 'layout'])
+    lay = []
+    for c, m, o, ml in zip(cases, mo, obs, mlay):
+        f = m.split()
+        k = 6 if front == 'ini' else 5
+        cd = c.get('codec', 'utf8')
+        rb = [] if len(f) <= k or f[k] == '-' else [to_bytes('-' if h == '.' else h, cd) + b'\n' for h in f[k].split(',')]
+        ok = len(f) > k and len(ml.split()) == 2 and layout_applicable(c, rb, ml)
+        lay.append({'applicable': ok, 'model': ml, 'observed': observed_layout(c, o, rb) if ok else None, 'verdict': '1'})
+    idx = [i for i, l in enumerate(lay) if l['applicable'] and l['observed'] is not None]
+    _, lver, _ = vlib.run_lines(model, ['%s | %d %d %s' % (olines[i], pres[i][0], pres[i][1], lay[i]['observed']) for i in idx], [lmode + 'layoracle'])
+    for i, v in zip(idx, lver):
+        lay[i]['verdict'] = v
     failing, disagree = [], []
-    for c, line, m, o, (fv, trimmed), v in zip(cases, lines, mo, obs, views, verdict):
+    for c, line, m, o, (fv, trimmed), v, l in zip(cases, lines, mo, obs, views, verdict, lay):
         f = m.split()
         cd = c.get('codec', 'utf8')
         if len(f) < 5:
             disagree.append((c, 'model driver error: ' + m, o)); continue
         stats['trimmed'] += trimmed
+        o['layout'] = show_layout(l['observed']); o['layout_model'] = show_layout(l['model']) if l['applicable'] else None
         why = []
         if o['rc'] != 0:
             why.append('child exit code %d%s' % (o['rc'], ' (timeout: hang)' if o['rc'] == 124 else ''))
@@ -449,6 +606,14 @@ def compare_front(chk, front, cases, model, impl, work, stats):
             why.append('files were created although no path key was given')
         if o['other']:
             why.append('unexpected files in the log directory: %s' % o['other'])
+        if l['applicable']:
+            stats['layout_checked'] = stats.get('layout_checked', 0) + 1
+            np, d0 = pre_of(c)
+            if np and d0 != c['msgs'][0]['time'] // 86400 and ((c['opts'] & 2) if front == 'oneline' else c['b'].get('rotate_daily')) and eff_count(c) != 1:
+                stats['layout_daily_old_lines'] = stats.get('layout_daily_old_lines', 0) + 1
+            if l['observed'] is not None and l['verdict'] != '1':
+                why.append('file layout oracle: the files of the log directory do not hold the records the rotation options say (old lines of an earlier day '
+                           'left in the active file / a file mixing days / records lost): %s' % json.dumps(o['layout']))
         if why:
             failing.append((c, why, o))
             continue
@@ -463,6 +628,9 @@ def compare_front(chk, front, cases, model, impl, work, stats):
             diffs.append('stderr differs')
         if fv != to_bytes(f[4], cd):
             diffs.append('log file differs')
+        if l['applicable'] and l['observed'] != l['model']:
+            diffs.append('file layout: model %s, implementation %s' % (json.dumps(show_layout(l['model'])),
+                                                                        json.dumps(o['layout']) if l['observed'] else 'files that are not whole records of the stream'))
         if diffs:
             disagree.append((c, '; '.join(diffs), o))
     return failing, disagree, obs, mo
@@ -471,7 +639,8 @@ def compare_front(chk, front, cases, model, impl, work, stats):
 def small(o, codec='utf8'):
     enc = 'latin-1' if codec == 'latin1' else 'utf-8'
     return {'rc': o['rc'], 'stdout': o['out'].decode(enc, 'replace')[:600], 'stderr': o['err'].decode(enc, 'replace')[:900],
-            'log_records': o['file'].decode(enc, 'replace')[:600], 'streams_decoded_as': enc, 'files': o['names'], 'handlers': o['shape'], 'own_thread': o['async']}
+            'log_records': o['file'].decode(enc, 'replace')[:600], 'streams_decoded_as': enc, 'files': o['names'], 'handlers': o['shape'], 'own_thread': o['async'],
+            'file_layout': o.get('layout'), 'file_layout_model_of_the_code': o.get('layout_model')}
 
 
 def shrink_case(c, still_bad):
@@ -582,7 +751,7 @@ def run_scenario(impl, model, sc, work):
     with open(script, 'w') as f:
         f.write('\n'.join(s) + '\n')
     rc, out, err = spawn([impl, 'run', script], 0, 0)
-    data, nrot, other, names = collect_files(logdir)
+    data, nrot, other, names, _per, _act = collect_files(logdir)
     try:
         fl = [l.split() for l in open(foreign).read().splitlines()]
     except FileNotFoundError:
@@ -735,6 +904,53 @@ def corpus():
     return hs, cs
 
 
+ALPHA_DOC = ('I gQtLogger.installMessageHandler() (logger 0, the singleton), R Logger::restorePreviousMessageHandler(), 1-3 foreign qInstallMessageHandler(F<n>), '
+             'D foreign qInstallMessageHandler(nullptr); a b c = create Logger 1 2 3 (heap / in-place storage as on a stack / QSharedPointer), '
+             'i j k = that logger\'s installMessageHandler(), x y z = destroy it; trace = two characters per call: current handler (L logger, D Qt default, 1-3) '
+             'and who receives a message emitted then (d Qt default handler, 1-3 foreign, p q r s = pipeline of logger 0..3, - nobody)')
+
+
+def well_formed(h):
+    alive = set()
+    for ch in h:
+        if ch in 'abc':
+            if ch in alive:
+                return False
+            alive.add(ch)
+        elif ch in 'ijk':
+            if 'abc'['ijk'.index(ch)] not in alive:
+                return False
+        elif ch in 'xyz':
+            k = 'abc'['xyz'.index(ch)]
+            if k not in alive:
+                return False
+            alive.discard(k)
+    return True
+
+
+def gen_lifetime(rng):
+    """random history in which Logger objects come and go; mostly well formed (calls on a logger that does not exist
+    are skipped by harness and model alike)"""
+    alive, h = set(), ''
+    for _ in range(rng.randint(2, 14)):
+        x = rng.random()
+        if x < 0.22:
+            k = rng.randrange(3)
+            h += 'abc'[k] if k not in alive else 'ijk'[k]
+            alive.add(k)
+        elif x < 0.45 and alive:
+            h += 'ijk'[rng.choice(sorted(alive))]
+        elif x < 0.62 and alive:
+            k = rng.choice(sorted(alive)); alive.discard(k); h += 'xyz'[k]
+        elif x < 0.8:
+            h += 'R'
+        elif x < 0.97:
+            h += rng.choice('I12D')
+        else:
+            h += rng.choice('abcijkxyz')
+    return h
+
+
 def install_leg(chk, model, impl, thorough):
     rng = chk.rng
     hs = list(corpus()[0])
@@ -747,40 +963,75 @@ def install_leg(chk, model, impl, thorough):
     for k in range(1, ex + 1):
         hs += [''.join(t) for t in itertools.product('IR123', repeat=k)]
     hs += [''.join(t) for t in itertools.product(alpha, repeat=4)]
+    # object lifetime: every history over { singleton install, restore, one foreign handler, create / install / destroy of
+    # one non-singleton logger } up to the stated length, two loggers exhaustively at a smaller length, then random ones
+    exl = 6 if thorough else 5
+    n_before = len(hs)
+    for k in range(1, exl + 1):
+        hs += [''.join(t) for t in itertools.product('IR1aix', repeat=k)]
+    for k in range(1, (5 if thorough else 4) + 1):
+        hs += [h for h in (''.join(t) for t in itertools.product('R1aixbjy', repeat=k)) if well_formed(h)]
+    hs += [gen_lifetime(rng) for _ in range(20000 if thorough else 4000)]
+    n_life = len(hs) - n_before
     rc, out_i, err_i = vlib.run_lines(impl, hs)
     _, out_m, _ = vlib.run_lines(model, hs, ['install'])
     if rc != 0 or len(out_i) != len(hs):
         chk.fail('install/restore harness crashed', {'kind': 'crash', 'rc': rc, 'stderr': err_i[-400:]}, kind='crash')
         out_i = out_i + [''] * (len(hs) - len(out_i))
-    _, ver, _ = vlib.run_lines(model, ['%s %s' % (h, o) for h, o in zip(hs, out_i)], ['instoracle'])
-    bad = [h for h, v in zip(hs, ver) if v != '1']
-    dis = [h for h, a, b in zip(hs, out_i, out_m) if a != b]
+    # the small exhaustive core again with every history in its own forked process (pristine state, no reset to trust)
+    core = list(corpus()[0]) + [''.join(t) for k in range(1, 5) for t in itertools.product('IR1aix', repeat=k)]
+    _, out_c, _ = vlib.run_lines(impl, core, ['fork'])
+    out_c = out_c + [''] * (len(core) - len(out_c))
+    hs_all, out_all = hs + core, out_i + out_c
+    _, ver, _ = vlib.run_lines(model, ['%s %s' % (h, o) for h, o in zip(hs_all, out_all)], ['instoracle'])
+    cand = sorted({h for h, v in zip(hs_all, ver) if v != '1'}, key=lambda h: (len(h), h))
+    _, out_mc, _ = vlib.run_lines(model, core, ['install'])
+    dis = [h for h, a, b in zip(hs_all, out_all, out_m + out_mc) if a != b]
 
     def impl_bad(hist):
+        """in a process of its own"""
         h = ''.join(hist)
         if not h:
             return False
-        _, o, _ = vlib.run_lines(impl, [h])
+        _, o, _ = vlib.run_lines(impl, [h], ['fork'])
         _, v, _ = vlib.run_lines(model, ['%s %s' % (h, o[0] if o else '')], ['instoracle'])
         return bool(v) and v[0] != '1'
+    bad = []
+    if cand:
+        # confirm each candidate from the pristine state: a history that only misbehaves after other histories ran in the
+        # same process is not a failing input by itself
+        some = cand[:3000]
+        _, o2, _ = vlib.run_lines(impl, some, ['fork'])
+        _, v2, _ = vlib.run_lines(model, ['%s %s' % (h, o) for h, o in zip(some, o2 + [''] * (len(some) - len(o2)))], ['instoracle'])
+        bad = [h for h, v in zip(some, v2) if v != '1']
+        if not bad:
+            chk.broke('install/restore: %d histories misbehave only when run after other histories in the same process (state left behind survives '
+                      'destroying every logger + restore + qInstallMessageHandler(nullptr)), e.g. %r' % (len(cand), cand[0]),
+                      {'kind': 'install_state_leak', 'history': cand[0]})
     if bad:
-        h = ''.join(vlib.shrink_list(list(min(bad, key=len)), impl_bad))
-        _, o, _ = vlib.run_lines(impl, [h])
+        h = ''.join(vlib.shrink_list(list(bad[0]), impl_bad))
+        _, o, _ = vlib.run_lines(impl, [h], ['fork'])
         _, m, _ = vlib.run_lines(model, [h], ['install'])
         tr = o[0] if o else ''
         # classify: which call misbehaved
         what = 'restore' if h.endswith('R') else 'other'
-        chk.fail('install/restore history %r leaves the wrong message handler current (after each call: %s)' % (h, tr),
-                 {'kind': 'install_restore', 'history': h, 'last_call': what,
-                  'alphabet': 'I installMessageHandler, R restorePreviousMessageHandler, 1-3 foreign qInstallMessageHandler(F<n>), D foreign qInstallMessageHandler(nullptr); trace: L logger, D Qt default',
-                  'implementation_current_after_each_call': tr, 'model_current_after_each_call': m[0] if m else None,
+        life = any(ch in h for ch in 'abcijkxyz')
+        chk.fail('install/restore history %r%s leaves the wrong message handler current / delivers the messages to the wrong receiver (after each call: %s)' % (
+                     h, ' (Logger objects created / destroyed on the way)' if life else '', tr),
+                 {'kind': 'install_restore', 'history': h, 'last_call': what, 'logger_lifetime': life,
+                  'alphabet': ALPHA_DOC,
+                  'implementation_current_and_receiver_after_each_call': tr, 'model_current_and_receiver_after_each_call': m[0] if m else None,
                   'falsified_histories': len(bad)}, kind='install_restore')
     if dis:
         h = min(dis, key=len)
         chk.broke('correspondence: install/restore model (as translated from logger.cpp) and the real handler state differ on %d histories, e.g. %r' % (len(dis), h),
                   {'kind': 'correspondence', 'front': 'install', 'history': h})
-    return {'install_histories': len(hs), 'install_exhaustive_up_to': ex, 'install_disagreements': len(dis), 'install_oracle_falsified': len(bad),
-            'install_distinct_nontrivial': len({h for h in hs if 'I' in h and 'R' in h and any(d in h for d in '123D')}),
+    life_nontriv = {h for h in hs if re.search(r'a.*i.*x.*R|b.*j.*y.*R|c.*k.*z.*R', h)}
+    return {'install_histories': len(hs), 'install_core_histories_in_own_process': len(core), 'install_exhaustive_up_to': ex, 'install_disagreements': len(dis), 'install_oracle_falsified': len(bad),
+            'install_lifetime_histories': n_life, 'install_lifetime_exhaustive_up_to': exl,
+            'install_lifetime_restore_after_installer_destroyed': len(life_nontriv),
+            'install_messages_swallowed_seen': sum(1 for o in out_i if '-' in o[1::2]),
+            'install_distinct_nontrivial': len({h for h in hs if ('I' in h or 'i' in h or 'j' in h or 'k' in h) and 'R' in h and any(d in h for d in '123D')} | life_nontriv),
             'install_samples': [{'history': hs[i], 'impl': out_i[i], 'model': out_m[i]} for i in (0, 1500, len(hs) - 1)]}
 
 
@@ -790,10 +1041,13 @@ def run():
                    'axioms: none (every Print Assumptions: Closed under the global context)',
                    'tools/s2c/config.py translator (configure.cpp, logger.cpp, prettyformatter.h, stderrsink.h, platformstdsink.h, rotatingfilesink.h -> SrcConfig.v)',
                    'extraction ExtrOcamlBasic, no Extract Constant; ocaml/drv_config.ml',
-                   'harness/h_config.cpp (one child per configuration, virtual wall clock), harness/h_install.cpp, checks/c19.py (INI writing, capture through pipes/ptys, concatenation + gunzip of rotated files)',
+                   'harness/h_config.cpp (one child per configuration, virtual wall clock), harness/h_install.cpp (several Logger objects: heap, in-place storage, QSharedPointer; receiver of a probe message after every call; fd 2 redirected to a file to see Qt\'s default handler), '
+                   'checks/c19.py (INI writing, capture through pipes/ptys, concatenation + gunzip of rotated files, record counts per file, back-dating of the old log file)',
                    'modelled not verified: QSettings INI lexing, QVariant conversions, QDateTime rendering, isatty, PCRE, pattern/category languages outside the menus, rotation/retention/compression, async hand-off, syslog']
     chk.assumptions = ['configuration values come from the modelled menus (META.note); string values are written quoted',
                        'messages contain no NUL character; qFatal is not emitted',
+                       'install/restore histories: foreign parties install their own handlers or nullptr, never Logger::messageHandler itself; a Logger is destroyed by its owner, not while one of its calls runs',
+                       'file layout: the log directory holds no rotated files at start; old lines are dated on or before the first message; size / retention limits out of reach',
                        'one configuration per process (PrettyFormatter::instance() is process-wide state)',
                        'syslog output is not observed (offline sandbox)',
                        'async configurations are drained with a live QCoreApplication (exec()+quit or resetOwnThread); the no-event-loop exit path is C04']
@@ -820,6 +1074,11 @@ def run():
         if len(c['keys']) == 1 and c['keys'][0] in BKEYS and c['keys'][0] != 'platform_std_log' and c['id'] < len(fixed):
             c['b'][c['keys'][0]] = True; c['spell'][c['keys'][0]] = 'true'
     ol = [gen_oneline_case(rng, 100000 + i) for i in range(800 if thorough else 240)]
+    # old lines in the file + daily rotation: which file holds which line (both front-ends)
+    n_daily = 150 if thorough else 40
+    ol += [gen_daily_case(rng, 200000 + i, 'oneline') for i in range(n_daily)]
+    cases += [gen_daily_case(rng, 300000 + i, 'ini') for i in range(n_daily)]
+    cov['daily_cases_per_front'] = n_daily
     cases = cases + [c for c in corpus_cases if c['front'] == 'ini']
     ol = [c for c in corpus_cases if c['front'] == 'oneline'] + ol
     cov['corpus_cases'] = len(corpus_cases)
@@ -849,7 +1108,10 @@ def run():
                     _, sp, _ = vlib.run_lines(model, [of_bytes(obs2[0]['err'], c.get('codec', 'utf8'))], ['stripspec'])
                     spec = {'log_records = console text minus SGR sequences': unhx16(sp[0])}
                     kind = 'oneline_output'
-                    what = 'one-line configuration: the log file is not the console text minus its colour codes / extra output (%s)' % '; '.join(why2)
+                    what = 'one-line configuration: the log file is not the console text minus its colour codes / extra output / the files do not hold what the rotation options say (%s)' % '; '.join(why2)
+                if any(w.startswith('file layout') for w in why2):
+                    spec['files'] = ('daily: no file mixes days and a rotated file is named after the day of its lines (old lines of an earlier day are moved out when a '
+                                     'message of another day arrives); startup: the lines found at start are alone in the first rotated file; count 1 / no option: no rotated file; nothing lost')
                 chk.fail(what, {'kind': kind, 'front': front, 'why': why2, 'case': describe(c, texts), 'observed': small(obs2[0], c.get('codec', 'utf8')),
                                 'specified': spec, 'model_of_the_code': mo2[0][:800], 'falsified_cases': len(failing)}, kind=kind)
             if disagree:
@@ -865,6 +1127,8 @@ def run():
                 if len(f) >= 5 and (f[2] != '-' or f[3] != '-' or f[4] != '-'):
                     nontriv += 1
             cov[front + '_distinct_nontrivial'] = nontriv
+            cov[front + '_layout_checked'] = stats.pop('layout_checked', 0)
+            cov[front + '_layout_daily_with_old_lines_of_another_day'] = stats.pop('layout_daily_old_lines', 0)
             if front == 'ini':
                 cov['ini_key_presence'] = {k: sum(1 for c in cs if k in c['keys']) for k in keys}
                 cov['ini_outputs_configured'] = {
@@ -919,8 +1183,9 @@ def run():
     total = cov['install_histories'] + cov['ini_cases'] + cov['oneline_cases'] + cov['history_cases']
     cov.update({'evaluations': total,
                 'distinct_nontrivial': cov['install_distinct_nontrivial'] + cov['ini_distinct_nontrivial'] + cov['oneline_distinct_nontrivial'],
-                'rule': 'install: random histories (length <= 12) over I R F1 F2 F3 D plus every history up to the stated length; non-trivial = contains an '
-                        'install, a restore and a foreign call.  ini / one-line: one child process per generated configuration (every single key, no key, '
+                'rule': 'install: random histories (length <= 12) over I R F1 F2 F3 D plus every history up to the stated length, plus histories in which up to three '
+                        'non-singleton Logger objects are created / installed / destroyed (exhaustive over I R F1 + one such logger up to the stated length, random beyond); '
+                        'non-trivial = contains an install, a restore and a foreign call, or a restore after the installing logger was destroyed.  ini / one-line: one child process per generated configuration (every single key, no key, '
                         'all keys, then random subsets at four densities; boundary values; quoted and QSettings-written files; pipes and ptys); '
                         'non-trivial = at least one record reached an observable output'})
     chk.cov.update(cov)
@@ -937,9 +1202,9 @@ def replay(path):
         impl = vlib.build_harness('install')
         h = r['history']
         print('history        ', h)
-        print('implementation ', vlib.run_lines(impl, [h])[1])
+        print('implementation ', vlib.run_lines(impl, [h], ['fork'])[1])
         print('model          ', vlib.run_lines(model, [h], ['install'])[1])
-        _, o, _ = vlib.run_lines(impl, [h])
+        _, o, _ = vlib.run_lines(impl, [h], ['fork'])
         print('oracle         ', vlib.run_lines(model, ['%s %s' % (h, o[0] if o else '')], ['instoracle'])[1])
         return 0
     if r.get('scenario'):
